@@ -112,9 +112,17 @@ class Dykstra(E2Contract):
         def vecs(lst):
             return [None if x is None else (x if not hasattr(x, "to_stacked_vector") else x.to_stacked_vector()) for x in lst]
         closure = obj.func_calc_proj_physical_with_var(on_para_eq_constraint=False, mode_proj_order=order, max_iteration=it)(W.np.copy(inp["var"]))
+        # the flag given to the CALL (not the flag of the object the method is called on) says how argument and result are parametrised:
+        # the object has the flag off; call it with constrained variables and the flag on
+        cls = type(obj)
+        var_on = cls.convert_stacked_vector_to_var(inp["c_sys"], W.np.copy(inp["var"]), True)
+        stacked_of_var_on = cls.convert_var_to_stacked_vector(inp["c_sys"], W.np.copy(var_on), True)
+        res_cross = obj.calc_proj_physical_with_var(W.np.copy(var_on), on_para_eq_constraint=True, max_iteration=it)
+        res_cross_ref = cls.convert_stacked_vector_to_var(
+            inp["c_sys"], obj.calc_proj_physical_with_var(W.np.copy(stacked_of_var_on), on_para_eq_constraint=False, max_iteration=it), True)
         return dict(res_v=res_v, hist_v={k: vecs(v) if k != "error_value" else list(v) for k, v in hist_v.items()},
                     res_o=res_o.to_stacked_vector(), hist_o={k: vecs(v) if k != "error_value" else list(v) for k, v in hist_o.items()},
-                    closure=closure, arg_after=obj.to_stacked_vector(),
+                    closure=closure, arg_after=obj.to_stacked_vector(), res_cross=res_cross, res_cross_ref=res_cross_ref,
                     config_kept=all(type(getattr(obj, k)) is type(v) and getattr(obj, k) == v for k, v in config_before.items()))
 
     def post(self, W, cfg, inp, out):
@@ -161,6 +169,9 @@ class Dykstra(E2Contract):
               eq("object-level/result==last-x", out["res_o"], xs[-1], "the object-level result is the same point"),
               eq("closure==routine", out["closure"], out["res_v"], "func_calc_proj_physical_with_var(...)(var) == calc_proj_physical_with_var(var)"),
               eq("argument-object-unchanged", out["arg_after"], x, "the projected object itself is not modified"),
+              eq("flag-of-the-call-selects-the-parametrisation", out["res_cross"], out["res_cross_ref"],
+                 "calc_proj_physical_with_var(v, on_para_eq_constraint=True) on an object whose own flag is off == constrained variables of the projection "
+                 "of the stacked vector that v denotes"),
               eq("argument-object-configuration-unchanged", out["config_kept"], True,
                  "the projected object keeps its flags (is_physicality_required, is_estimation_object, constraint options, thresholds)")]
         # stopping rule: executed exactly `it` sweeps unless an earlier error value was below eps; the last one decides
